@@ -26,3 +26,4 @@ func Yield()                          {}
 func Preempt(on bool)                 {}
 func PermuteMaps(on bool)             {}
 func Panics(f func()) bool            { return false }
+func SameFunc(a, b interface{}) bool { return false }
